@@ -27,7 +27,8 @@ const wordMul = 2654435761
 const wordInv = 244002641 // wordMul * wordInv == 1 (mod 2^32)
 
 type StreamSpec struct {
-	Kind   string `json:"kind"` // self | const | periodic | seeded
+	Bytes  []int  `json:"bytes"` // kind "bytes": explicit content (then zeros)
+	Kind   string `json:"kind"` // self | const | periodic | seeded | bytes
 	Byte   int    `json:"byte"`
 	Period []int  `json:"period"`
 	Seed   int64  `json:"seed"`
@@ -62,6 +63,8 @@ type WJob struct {
 	TimeoutMs    int        `json:"timeoutMs"`
 	RoundDelayUs int        `json:"roundDelayUs"`
 	LogReads     bool       `json:"logReads"`
+	NoMatrix     bool       `json:"noMatrix"`
+	MustReject   bool       `json:"mustreject"`
 	Tag          string     `json:"tag"`
 }
 
@@ -92,6 +95,11 @@ func fnTable(name string) (fnInfo, bool) {
 // ---------------------------------------------------------------- stream
 func streamByte(sp *StreamSpec, o int64) byte {
 	switch sp.Kind {
+	case "bytes":
+		if o < int64(len(sp.Bytes)) {
+			return byte(sp.Bytes[o])
+		}
+		return 0
 	case "const":
 		return byte(sp.Byte)
 	case "periodic":
@@ -581,7 +589,7 @@ waitLoop:
 	rec.mu.Unlock()
 	res["numcpu"] = runtime.NumCPU()
 	res["gomaxprocs"] = runtime.GOMAXPROCS(0)
-	if j.Mode == "real" && !single && !hang && j.Stream.Len < 0 {
+	if j.Mode == "real" && !single && !hang && j.Stream.Len < 0 && !j.NoMatrix {
 		// the matrix the workflow must have seen: registry runners applied directly to each sample
 		passM := make([][]bool, info.items)
 		qsM := make([][]string, info.items)
@@ -607,6 +615,24 @@ waitLoop:
 			res["pass"] = passM
 			res["qs"] = qsM
 		}()
+	}
+	if single && j.NumByte > 0 && j.NumByte <= 1<<22 {
+		// proxy summary of the content SingleDetect was offered: pattern histograms for m = 2, 4, 8 (MSB-first bits)
+		content := make([]byte, j.NumByte)
+		fillStream(&j.Stream, 0, content)
+		h2 := make([]int, 4)
+		h4 := make([]int, 16)
+		h8 := make([]int, 256)
+		for _, b := range content {
+			h8[b]++
+			h4[b>>4]++
+			h4[b&15]++
+			h2[b>>6]++
+			h2[(b>>4)&3]++
+			h2[(b>>2)&3]++
+			h2[b&3]++
+		}
+		res["h2"], res["h4"], res["h8"] = h2, h4, h8
 	}
 	if !single {
 		res["s"] = info.s
